@@ -1,5 +1,6 @@
 import BadgerModel.Mvcc
 import BadgerModel.Drop
+import BadgerModel.Picker
 import BadgerModel.Driver.Util
 /-! `mvcc` engine: the whole-database model driven by one op per line (see harness/eng_mvcc.go). -/
 namespace Badger.Driver
@@ -152,7 +153,11 @@ def mvccStep (d : Db) (line : String) : Db × String :=
       | none => dtsModel
     let (out, ov) := compactOutput d.lsm cd dts d.opts.numKeep d.now
     match d.lsm.compact cd dts d.opts.numKeep d.now with
-    | some l => ({ d with lsm := l }, s!"ok discard={dts} overlap={if ov then 1 else 0}")
+    | some l =>
+      -- the tables taken must be ones the production pickers can take (Picker.lean)
+      match choiceProblem d.lsm cd with
+      | none => ({ d with lsm := l }, s!"ok discard={dts} overlap={if ov then 1 else 0}")
+      | some msg => ({ d with lsm := l }, s!"invalid-choice {msg}")
     | none =>
       (d, s!"mismatch discard={dts} overlap={ov} model-out={out.length} " ++
           String.intercalate "," (out.map fmtEnt))
